@@ -10,18 +10,21 @@ READY = True
 IMPORTS = "From LE Require Import BFT.Contradiction BFT.Votes BFT.Universe Corr.C02 Corr.C01."
 MANIFEST = {
     "technique": "Coq proof (protocol-level safety under quorum intersection + refutation witnesses on the faithful liskbft model) + differential correspondence on two-chain universes with a safety oracle evaluated in Coq",
-    "text": "Proved: the Lisk-BFT safety theorem for arbitrary block trees (any two blocks with a precommit quorum in any two views lie on "
-            "one chain) under quorum intersection and the structural facts of the vote rules (C01_safety_partial); the unrestricted "
-            "statement of the property is refuted on the faithful model by two vm_compute witnesses (precommitThreshold = floor(W/3)+1; "
-            "fork-dependent validator-set change) which replay on the real module and are listed as known findings. Tie: universes "
-            "(common prefix + two branches built by simulated honest/Byzantine validators, < 1/3 Byzantine weight, low thresholds and "
-            "fork-local parameter changes included) are run on the real liskbft module; every view is compared with the model (as "
-            "C02) and the finalized prefixes reported by the implementation must be comparable unless the case falls in a known-"
-            "finding class decided by an evaluator in Coq.",
-    "note": "Partial: the derivation of the premises of C01_safety_partial (QI from weights, maxHeightPrevoted witness, shape of a "
-            "precommitting run) from the faithful model is in BFT/SafetyInst.v as far as it is proved (see docs/C01.md); signatures, "
-            "ABI and the other validity rules are outside (C03). Trusted: Coq kernel + vm_compute, model fidelity as sampled by the "
-            "C02/C01 correspondence, Go harness.",
+    "text": "Proved from the faithful executable model of liskbft with no remaining premise (C01_static_safety_decl, "
+            "_one_third, _same_height_same_block): for every static validator set with prevoteThr+precommitThr > W+f (default "
+            "thresholds and < 1/3 Byzantine weight in particular), every prefix-closed universe of valid chains (all fork trees, all "
+            "Byzantine strategies, all weight vectors, any length relative to the window), the blocks finalized by any two views lie "
+            "on one chain. The proof decomposes every prevote/precommit weight into duplicate-free contributor lists (VotesGhost.v), "
+            "derives quorum intersection, the maxHeightPrevoted witness and the linked precommitting run from the model and instantiates "
+            "the abstract induction (Safety.v). C01_examine_safe: the executable safety oracle cannot fire under these hypotheses. "
+            "C01_safety_partial: protocol-level theorem under an explicit QI premise (dynamic sets). The unrestricted statement is "
+            "refuted by two vm_compute witnesses (precommitThreshold floor(W/3)+1; fork-dependent validator-set change) that replay "
+            "on the real module: known findings. Tie: two-chain universes built by simulated honest/Byzantine validators run on the "
+            "real liskbft module; every view compared with the model (as C02) and the safety oracle applied to the implementation's "
+            "own finalized heights, classified inside Coq.",
+    "note": "Dynamic validator sets only under the QI premise (C01_safety_partial; model-level instantiation in BFT/SafetyDyn.v when "
+            "present). Signatures, ABI and the other validity rules are outside (C03). Heights unbounded N (< 2^32-1). Trusted: Coq "
+            "kernel + vm_compute, model fidelity as sampled by the C02/C01 correspondence, Go harness.",
 }
 
 
